@@ -20,7 +20,8 @@ class Contract:
     def __init__(self, target, serves=(), types=None, returns=None, requires=(), ensures=(), raises=None,
                  loops=None, modifies=(), ghosts=None, on_call=None, examples=None, variant='', trusted=False,
                  locals=None, self_fields=None, notes='', assumes=(), lemmas=(), opaque_loops=(), fix=None, params=None,
-                 rebinds=(), allocates=False, new_graph_schema='mol', opaque=(), abstract=(), heap_invariants=(), callee_clauses=None, returns_fresh=False, wf_all_graphs=False, after=None, draft=False, callee_variants=None):
+                 rebinds=(), allocates=False, new_graph_schema='mol', opaque=(), abstract=(), heap_invariants=(), callee_clauses=None, returns_fresh=False, wf_all_graphs=False, after=None, draft=False, callee_variants=None, native_ensures=()):
+        self.native_ensures = list(native_ensures)   # postconditions checked at run time only (bounded tier, refuter); never counted as proved
         self.callee_variants = dict(callee_variants or {})   # callee short name -> variant of its contract used at call sites
         self.draft = draft            # contract under development: verified on request, not enforced by the run-time monitor
         self.target = target          # 'cgsmiles.resolve:compatible' / 'cgsmiles.resolve:MoleculeResolver.resolve'
